@@ -203,6 +203,21 @@ def linked_collapse(ctx, rule='A5l'):
     ctx.ob(rule, fkey(fn, rule, 'linked-all-but-first-forced'), ok, fn.where,
            'for a LINKED constraint every choice but the first (in choice order) is forced, i.e. exactly one '
            'design variable represents the linked group', '')
+    # one variable can stand for the whole linked group only if the choice that keeps its variable exists whenever
+    # another member of the group does: the collapse has to be conditional on something about that first choice
+    cfg = build_cfg(fn)
+    stores = [n for n in cfg.nodes if n.kind == 'stmt' and isinstance(n.ast, ast.Assign) and
+              isinstance(n.ast.targets[0], ast.Subscript) and isinstance(n.ast.value, ast.Constant) and
+              n.ast.value.value is True and norm(n.ast.targets[0].value).endswith('is_forced')]
+    firsts = {'i_choices[0]'} | {norm(a.targets[0]) for a in walk_fn(fn) if isinstance(a, ast.Assign) and
+                                 'i_choices[0]' in norm(a.value)}
+    if stores:
+        guards.check_guarded(ctx, rule, fn, stores,
+                         lambda atom, truth: any(f in norm(atom) for f in firsts), [],
+                         'collapse-only-if-representative-always-active',
+                         'the dependent choices of a LINKED group lose their variable only under a test about the '
+                         'choice that keeps it (it must be active whenever a dependent one is; otherwise the dependent '
+                         'choice is free in architectures without the first one and some of them become unreachable)')
     tests = [s for s in walk_fn(fn) if isinstance(s, ast.If) and 'ChoiceConstraintType' in norm(s.test)]
     ok = bool(tests) and all(norm(t.test) == 'choice_constraint.type == ChoiceConstraintType.LINKED' for t in tests)
     ctx.ob(rule, fkey(fn, rule, 'only-linked-collapses'), ok, fn.where,
